@@ -161,6 +161,39 @@ def check_hex_display(run, d):
     run.count("hexdisplay")
 
 
+def check_cli_hex(run, model, rng):
+    """the --hex display through the real command line: -f, -a, -l, -i on PELs with and without bytes after the last section"""
+    import os
+    import cli_runner
+    import dirgen
+    import pelgen
+    files = dirgen.gen_dir(model, rng, rng.randrange(1, 4), plugins=True)
+    files = [(n, d + bytes(rng.randrange(256) for _ in range(rng.choice([0, 0, 1, 3, 16, 40]))), m) for n, d, m in files]
+    names = sorted(f[0] for f in files)
+    by_name = {f[0]: f[1] for f in files}
+    with dirgen.TempDir(files) as d:
+        runs = [("-a", cli_runner.run_inproc(["-p", d, "-E", "-a", "-x"]), [by_name[n] for n in names]),
+                ("-l", cli_runner.run_inproc(["-p", d, "-E", "-l", "-x"]), [by_name[n] for n in names])]
+        n0 = rng.choice(names)
+        runs.append(("-f", cli_runner.run_inproc(["-E", "-f", os.path.join(d, n0), "-x"]), [by_name[n0]]))
+    for mode, (rc, out, err), want in runs:
+        run.evaluations += 1
+        run.count("cli-hex:" + mode)
+        lines = out.split("\n")
+        blocks, cur = [], None
+        for ln in lines:
+            if ln == "-------------- PEL Begin  ----------------":
+                cur = []
+            elif ln == "-------------- PEL End    ----------------":
+                blocks.append(bytes(impl_parse(cur, 0)))
+                cur = None
+            elif cur is not None:
+                cur.append(ln)
+        if blocks != want:
+            run.violation("hexdisplay:cli:" + mode, "peltool %s -x does not reproduce the file's bytes between its markers" % mode,
+                          dict(kind="S", fn="cli-hex", mode=mode, files=[[f[0], f[1].hex()] for f in files], got=[b.hex() for b in blocks]))
+
+
 def run(run, model, proof):
     rng = run.rng
     thorough = run.tier == "thorough"
@@ -212,6 +245,7 @@ def run(run, model, proof):
         check_parse(run, model, mutate_lines(rng, lines), 0, "mutated", expect=None)
         if i % 10 == 0:
             check_hex_display(run, d if d else b"\0")
+            check_cli_hex(run, model, rng)
     if thorough:
         for n in (65536, 65537, 70000, 200000):
             d = gen_bytes(rng, n)
